@@ -125,8 +125,8 @@ def run_case(case):
         loaded = a.load()
         try:
             a.c03()
-        except SyntaxError:
-            pass
+        except (SyntaxError, ValueError):
+            pass  # text that does not parse / is not encodable source: reported by load()
         c03w = [c03.refine(w, case) for w in a.w if w["property"] == "C03"]
         naming = [w for w in c03w if w["mechanism"] in NAMING_ROOT]
         if not loaded:
